@@ -711,6 +711,12 @@ func (x *Exec) evalCall(e gcl.Call, c *evalCtx) (typed, error) {
 		}
 		return typed{}, fmt.Errorf("len of %s", e.Args[0])
 	case "cap":
+		if len(args) == 1 && args[0].typ != nil {
+			if _, ok := args[0].typ.Underlying().(*types.Chan); ok {
+				f := x.ctx.Fun("chancap$", []string{smt.Int}, smt.Int)
+				return tv(smt.App(smt.Int, f, args[0].t), intT), nil
+			}
+		}
 		return tv(sCap(args[0].t), intT), nil
 	case "errIs":
 		return tv(x.errIs(args[0].t, args[1].t), types.Typ[types.Bool]), nil
